@@ -1,6 +1,7 @@
 import QR.Model.Compile
 import QR.Spec.Penalty
 import QR.Proofs.Except
+import QR.Proofs.SourceTie
 /-
 C09 - automatic mask = first minimiser of the penalty over the eight trial symbols; explicit mask used as given.
 -/
@@ -88,5 +89,14 @@ theorem C09_auto_recorded (cfg : Cfg) (segs : List Seg) (hm : cfg.mask = none)
 /-- non-vacuity: a tie between masks 1 and 2 keeps the lower number; a later strict minimum wins -/
 example : Spec.argminFirst 8 (fun i => [9, 4, 4, 7, 4, 8, 9, 9].getD i 0) = 1 := by decide
 example : Spec.argminFirst 8 (fun i => [9, 4, 4, 7, 3, 8, 3, 9].getD i 0) = 4 := by decide
+
+/-! ### tie to the source: the model's expressions are the ones translated from the current Python AST (T2) -/
+
+/-- the loop of `best_mask_pattern` as it stands in the source: eight candidates built by `makeImpl(True, i)`, running
+    minimum updated by the translated test -/
+theorem C09_source_loop (st : Nat × Nat) (i lost : Nat) :
+    pickMask st i lost = (if Gen.Code.pick_update i st.1 lost then (lost, i) else st) ∧
+    Gen.Code.mask_candidates = 8 ∧ Gen.Code.mask_trial_call = "self.makeImpl(True, i)" :=
+  ⟨QR.SourceTie.pick_eq st i lost, QR.SourceTie.candidates⟩
 
 end QR.Props
